@@ -19,7 +19,8 @@ func init() {
 			"R5 no state derived from the file survives from one change to the next other than the file itself: matching and replacing never write the compiled program or package-level variables. " +
 			"R1 also: every non-empty line of the -P list is loaded as often as it is listed (no path of an iteration skips LoadFile except for an empty line), LoadFile succeeds only after LoadReader ran and LoadReader only after appending the program; R6 no stale parse-time state — File.Unresolved, File.Scope, Ident.Obj, Object.*, Scope.* (computed once by go/parser, not maintained by replacements) are read nowhere except the inventoried conservative Obj == nil test of usesNameAsTopLevel. " +
 			"NOT decided: the claimed equivalence with a chain of separate runs (stale positions, Ident.Obj, shared comment lists after in-place mutation) — a runtime relation between two executions." +
-			" R6 also: nothing reachable from Change.Match in the VTA call graph reads parse-time resolution state.",
+			" R6 also: nothing reachable from Change.Match in the VTA call graph reads parse-time resolution state." +
+			" R6 every assignment of the loader's list of compiled patches is append(l.progs, ...) on that field.",
 		Trusted:     commonTrusted,
 		Assumptions: commonAssumptions,
 	})
@@ -34,6 +35,7 @@ func runC09(r *an.Run) {
 	compiledProgramReadOnly(r, "R5-no-state-survives-between-changes")
 	noPackageLevelState(r, "R5-no-state-survives-between-changes")
 	parseTimeState(r, "R6-no-stale-parse-time-state")
+	loaderListOnlyGrows(r, "R6-the-loaders-list-only-grows")
 }
 
 // appendsToSelf checks `X = append(X, elem)` where X is the given path, and
